@@ -114,3 +114,32 @@ def coef_tolerance(sc, ph, fit):
         R = float(np.hypot(P[0, 0] - xc, P[0, 1] - yc))
         tol = max(tol, 1e-6 * max(1.0, R / L / 10.0, float(np.max(np.abs(P))) / L / 100.0))
     return tol
+
+
+SIG_FIT = "dlite-fit-stops-in-a-spurious-minimum"
+
+
+def unconverged_fits(frame, used, fit):
+    """finding KF7: columns (positions in `used`) of interfaces whose points lie on one circle (residual of the circle through
+    the first, middle and last point below 1e-9 chord lengths) while the centre returned by the code's fit leaves a residual
+    above 1e-5 chord lengths — scipy's leastsq, started from the centroid, stopped in a spurious minimum of DLITE's objective"""
+    bad = set()
+    for col, ids in enumerate(used):
+        if len(ids) < 4:
+            continue
+        P = np.array([[frame.vertices[i].x, frame.vertices[i].y] for i in ids], dtype=float)
+        L = float(np.linalg.norm(P[0] - P[-1]))
+        a, b, c = P[0], P[len(P) // 2], P[-1]
+        d = 2 * (a[0] * (b[1] - c[1]) + b[0] * (c[1] - a[1]) + c[0] * (a[1] - b[1]))
+        if L == 0 or abs(d) < 1e-14 * L * L:
+            continue
+        ux = ((a @ a) * (b[1] - c[1]) + (b @ b) * (c[1] - a[1]) + (c @ c) * (a[1] - b[1])) / d
+        uy = ((a @ a) * (c[0] - b[0]) + (b @ b) * (a[0] - c[0]) + (c @ c) * (b[0] - a[0])) / d
+        r3 = np.hypot(P[:, 0] - ux, P[:, 1] - uy)
+        if float(np.max(np.abs(r3 - r3[0]))) > 1e-9 * L:
+            continue
+        xc, yc = impl.quiet(ve.calculate_circle_center, [frame.vertices[i] for i in ids], method=fit)
+        rc = np.hypot(P[:, 0] - xc, P[:, 1] - yc)
+        if float(np.max(np.abs(rc - rc.mean()))) > 1e-5 * L:
+            bad.add(col)
+    return bad
